@@ -82,11 +82,11 @@ class Follower:
     """a live subscriber of all contexts (GET /?follow=true): everything broadcast while it is connected, ephemeral frames
     included - they are never stored, so this is the only place they can be observed"""
 
-    def __init__(self, cl):
+    def __init__(self, cl, path="/?follow=true"):
         import socket, threading
         self.s = socket.socket(socket.AF_UNIX, socket.SOCK_STREAM)
         self.s.connect(cl.sock)
-        self.s.sendall(H.render("GET", "/?follow=true", {"Connection": "keep-alive"}))
+        self.s.sendall(H.render("GET", path, {"Connection": "keep-alive"}))
         self.buf = b""
         self.stop = False
         self.t = threading.Thread(target=self._pump, daemon=True)
@@ -683,6 +683,24 @@ def run_restart_scenario(seed, n_events=12, kill=True):
             cl.kill()
         else:
             cl.p.stdin.write("quit\n"); cl.p.stdin.flush(); cl.p.wait(timeout=5)
+        if live["handlers"] and r.random() < 0.6:
+            # while the services are down, an `<name>.unregister` for a handler that was answering is written to the store
+            # (api only: nobody acknowledges it), followed by a stretch of other traffic in its context: the restart must
+            # honour it however far behind the registration it lies
+            hid, hc = r.choice(sorted(live["handlers"]))
+            reg = next((f for f in before if f["id"] == hid), None)
+            if reg is not None and reg["topic"].endswith(".register"):
+                off = Client("api", path=path)
+                try:
+                    for k in range(r.choice([0, 40, 70])):
+                        off.append("noise", ctx=hc, body=b"n%d" % k)
+                    off.append(reg["topic"][: -len(".register")] + ".unregister", ctx=hc)
+                    for k in range(r.choice([0, 3, 40])):
+                        off.append("noise", ctx=hc, body=b"m%d" % k)
+                finally:
+                    off.kill()
+                live["handlers"].discard((hid, hc))
+                rep["events"].append(f"offline-unregister@{ctxs.index(hc)}")
         cl2 = Client("api,handlers,generators,commands", path=path)
         try:
             time.sleep(0.3)
@@ -1049,9 +1067,11 @@ def run_generator_scenario(seed, max_wait_s=12.0):
         gens = []   # dict(id, ctx, name, outs, kind)
         names = ["g1", "g2", "g3", "g4"]
         r.shuffle(names)
-        for n in names[: r.choice([2, 3, 4])]:
+        for gi, n in enumerate(names[: r.choice([2, 3, 4])]):
             c = r.choice(ctxs)
             kind = r.choices(["plain", "duplex", "nocontent", "dupname", "duplexonce"], [5, 2, 1, 1, 2])[0]
+            if gi == 0 and r.random() < 0.5:
+                kind = "duplexonce"
             if kind == "duplexonce":
                 # the pipeline ends after one input: the NEXT instance must be fed only what is sent after ITS start
                 i = cl.append(n + ".spawn", ctx=c, body=b'each { |x| $"hi: ($x)" } | first 1', meta={"duplex": True})
@@ -1059,6 +1079,11 @@ def run_generator_scenario(seed, max_wait_s=12.0):
                 gens.append(g1)
                 st1 = cl.wait_topic(n + ".start", ctx=c, after=i or 0, timeout=5)
                 if st1:
+                    # a second spawn of the name while the first runs is refused (one .spawn.error) and changes nothing for the
+                    # running generator: it is still started again after each of its stops
+                    j = cl.append(n + ".spawn", ctx=c, body=b"[1 2] | each { |x| $x }")
+                    gens.append(dict(id=j, ctx=c, name=n, outs=None, kind="refused"))
+                    cl.wait_topic(n + ".spawn.error", ctx=c, after=j or 0, timeout=5)
                     cl.append(n + ".send", ctx=c, body=f"first-{n}".encode()); g1["sends"].append(f"first-{n}")
                     sp = cl.wait_topic(n + ".stop", ctx=c, after=st1["id"], timeout=6)
                     st2 = cl.wait_topic(n + ".start", ctx=c, after=sp["id"], timeout=6) if sp else None
@@ -1495,6 +1520,48 @@ def nu_deep_meta_probe(depths=(3, 126, 127, 140)):
                 out["violations"].append(dict(what=f"meta nested {d}: the append was refused ({res[:80]}) but the frame is in the stream"))
             if d <= 126 and not accepted:
                 out["violations"].append(dict(what=f"meta nested {d} (readable by the JSON parser) was refused: {res[:120]}"))
+        return out
+    finally:
+        cl.close()
+
+
+def head_follow_probe(seed):
+    """GET /head/<topic>?follow=true is `head` kept up to date: the current head of (context, topic), then every later frame
+    of that topic IN THAT CONTEXT - the zero context when no `context` is given - and nothing else"""
+    r = random.Random(seed)
+    cl = Client("api")
+    out = dict(violations=[], probes=0)
+    try:
+        b = cl.append("xs.context")
+        c2 = cl.append("xs.context")
+        topic = r.choice(["t", "news", "a.b"])
+        with_head = r.random() < 0.6
+        if with_head:
+            cl.append(topic, body=b"old-zero"); cl.append(topic, ctx=b, body=b"old-b")
+        fz = Follower(cl, f"/head/{topic}?follow=true")
+        fb = Follower(cl, f"/head/{topic}?follow=true&context={H.id_to_s(b)}")
+        time.sleep(0.4)
+        plan = []
+        for k in range(r.choice([4, 7])):
+            c = r.choice([0, 0, b, b, c2])
+            t = topic if r.random() < 0.75 else topic + "x"
+            i = cl.append(t, ctx=c, body=b"n%d" % k)
+            plan.append((i, c, t))
+        time.sleep(0.8)
+        gz, gb = fz.frames(), fb.frames()
+        allf = {f["id"]: f for f in cl.frames()}
+        for name, got, scope in (("no context parameter (zero context)", gz, 0), (f"context=B", gb, b)):
+            out["probes"] += 1
+            want = [i for (i, c, t) in plan if c == scope and t == topic]
+            heads = [f["id"] for f in allf.values() if f["ctx"] == scope and f["topic"] == topic and f["id"] not in want]
+            want = (heads[-1:] if with_head else []) + want
+            ids = [f["id"] for f in got]
+            if ids != want:
+                foreign = [f for f in got if f["ctx"] != scope]
+                out["violations"].append(dict(what=f"GET /head/{topic}?follow=true with {name} streamed {len(ids)} frames, expected {len(want)} "
+                                                   f"(the head of that context, then its later `{topic}` frames)"
+                                                   + (f"; {len(foreign)} of them belong to another context" if foreign else "")
+                                                   + f": got contexts/topics {[(('zero' if f['ctx'] == 0 else 'B' if f['ctx'] == b else 'C'), f['topic']) for f in got][:8]}"))
         return out
     finally:
         cl.close()
